@@ -74,6 +74,7 @@ package bloomsearch
 //@ pure
 //@ ensures ghost.recvs[doneChan(recv)] > 0 ==> result != nil
 //@ ensures result == nil || result == ctxErrVal(recv)
+//@ ensures result != nil ==> ctxDone(recv)
 
 // ---------------------------------------------------------------------------
 // Ghost state. Only contracts update it: extern contracts of the store
@@ -358,8 +359,13 @@ package bloomsearch
 //@ at call (*BloomSearchEngine).flushBufferedData#1 assert [C07] len(*doneChans) == old(len(*doneChans)) + 1 && (*doneChans)[len(*doneChans) - 1] == req.doneChan && forall k :: 0 <= k && k < old(len(*doneChans)) ==> (*doneChans)[k] == old((*doneChans)[k])
 //@ at call (*BloomSearchEngine).flushBufferedData#2 assert [C07] len(*doneChans) == old(len(*doneChans)) + 1 && (*doneChans)[len(*doneChans) - 1] == req.doneChan && forall k :: 0 <= k && k < old(len(*doneChans)) ==> (*doneChans)[k] == old((*doneChans)[k])
 //@ ensures [C07] len(*doneChans) == old(len(*doneChans)) + 1 ==> (*doneChans)[len(*doneChans) - 1] == old(req.doneChan) && forall k :: 0 <= k && k < old(len(*doneChans)) ==> (*doneChans)[k] == old((*doneChans)[k])
-//@ modifies heaps, ghost.flushTriggers, ghost.writes, $answers
+//@ modifies heaps, ghost.flushTriggers, ghost.writes, ghost.unsafeViews, $answers
 //@ let direct0 = ghost.attempts - ghost.roundAttempts
+// C10 / C09: reaching a buffer-level limit flushes immediately — when the call
+// returns having retained the batch without triggering a flush, the buffered row
+// and byte counters are below their limits (so the actor can never sit on a full
+// buffer waiting for something else to flush it).
+//@ ensures [C10,C09] ghost.flushTriggers == old(ghost.flushTriggers) && len(*doneChans) == old(len(*doneChans)) + 1 ==> *bufferedRowCount < b.config.MaxBufferedRows && *bufferedBytes < b.config.MaxBufferedBytes
 //@ loop 1 invariant ghost.attempts == old(ghost.attempts) && ghost.roundAttempts == old(ghost.roundAttempts) && ghost.flushTriggers == old(ghost.flushTriggers) && *doneChans == old(*doneChans) && (forall k :: 0 <= k && k < len(*doneChans) ==> (*doneChans)[k] == old((*doneChans)[k])) && forall c :: sentnil(c) == old(sentnil(c))
 //@ loop 2 invariant ghost.attempts == old(ghost.attempts) && ghost.roundAttempts == old(ghost.roundAttempts) && ghost.flushTriggers == old(ghost.flushTriggers) && *doneChans == old(*doneChans) && (forall k :: 0 <= k && k < len(*doneChans) ==> (*doneChans)[k] == old((*doneChans)[k])) && forall c :: sentnil(c) == old(sentnil(c))
 //@ loop 3 invariant ghost.attempts == old(ghost.attempts) && ghost.roundAttempts == old(ghost.roundAttempts) && ghost.flushTriggers == old(ghost.flushTriggers) && *doneChans == old(*doneChans) && (forall k :: 0 <= k && k < len(*doneChans) ==> (*doneChans)[k] == old((*doneChans)[k])) && forall c :: sentnil(c) == old(sentnil(c))
@@ -711,6 +717,103 @@ package bloomsearch
 //@ ensures [C23] ghost.statsRecorded == old(ghost.statsRecorded) + 1 && ghost.statsSkipped == old(ghost.statsSkipped)
 //@ ensures [C21] ghost.hAcquired - old(ghost.hAcquired) == (ghost.hPut - old(ghost.hPut)) + (ghost.hDiscarded - old(ghost.hDiscarded))
 //@ ensures [C21] ghost.hAcquired <= old(ghost.hAcquired) + 1
+
+// ---------------------------------------------------------------------------
+// Pruning (C24) and the accounting of the filter pass (C23, C21, C22)
+// ---------------------------------------------------------------------------
+
+//@ ghostvar bloomVerdict bool   // result of the last evaluateBloomFilters call
+//@ ghostvar edmCalls int        // EvaluateDataBlockMetadata calls
+//@ ghostvar edmTrue int         // ... that returned true
+
+//@ extern (*bloom.BloomFilter).TestString
+//@ pure
+
+// The tree evaluators only read: they modify nothing (verified, including at
+// their recursive calls, which use this same contract).
+//@ func (*BloomSearchEngine).evaluateBloomExpression
+//@ props C24 C01 C25
+//@ modifies nothing
+//@ ensures expression == nil ==> result
+
+//@ func evaluatePrefilterExpression
+//@ props C04 C24 C25
+//@ modifies nothing
+//@ ensures expression == nil ==> result
+
+//@ func EvaluateStringCondition
+//@ props C04 C02
+//@ modifies nothing
+//@ ensures condition.Operator == OpEqual ==> (result <==> value == condition.Value)
+//@ ensures condition.Operator == OpNotEqual ==> (result <==> value != condition.Value)
+//@ ensures condition.Operator == OpGreaterThan ==> (result <==> value > condition.Value)
+//@ ensures condition.Operator == OpGreaterThanEqual ==> (result <==> value >= condition.Value)
+//@ ensures condition.Operator == OpLessThan ==> (result <==> value < condition.Value)
+//@ ensures condition.Operator == OpLessThanEqual ==> (result <==> value <= condition.Value)
+//@ ensures condition.Operator == OpBetween ==> (result <==> value >= condition.Min && value <= condition.Max)
+//@ ensures condition.Operator == OpNotBetween ==> (result <==> value < condition.Min || value > condition.Max)
+//@ loop 0 invariant forall k :: 0 <= k && k <= $index ==> condition.Values[k] != value
+//@ loop 1 invariant forall k :: 0 <= k && k <= $index ==> condition.Values[k] != value
+//@ ensures condition.Operator == OpIn ==> (result <==> exists k :: 0 <= k && k < len(condition.Values) && condition.Values[k] == value)
+//@ ensures condition.Operator == OpNotIn ==> (result <==> !(exists k :: 0 <= k && k < len(condition.Values) && condition.Values[k] == value))
+
+//@ func (*BloomSearchEngine).evaluateBloomFilters
+//@ props C24 C01
+//@ exit ghost.bloomVerdict = result
+//@ modifies ghost.bloomVerdict
+//@ ensures ghost.bloomVerdict == result
+//@ ensures bloomQuery == nil || bloomQuery.Expression == nil ==> result
+
+//@ func EvaluateDataBlockMetadata
+//@ props C04 C02 C24
+//@ exit ghost.edmCalls = ghost.edmCalls + 1
+//@ exit ghost.edmTrue = result ? ghost.edmTrue + 1 : ghost.edmTrue
+//@ modifies ghost.edmCalls, ghost.edmTrue
+//@ ensures ghost.edmCalls == old(ghost.edmCalls) + 1 && ghost.edmTrue == old(ghost.edmTrue) + (result ? 1 : 0)
+//@ ensures query == nil || query.Expression == nil ==> result
+
+// FilterDataBlocks evaluates every block exactly once and keeps exactly the
+// blocks whose evaluation was true, each being one of the input blocks; without
+// a prefilter it returns its input.
+//@ func FilterDataBlocks
+//@ props C04 C02 C24 C01
+//@ modifies ghost.edmCalls, ghost.edmTrue
+//@ loop 0 invariant -1 <= $index && $index < len(blocks) && ghost.edmCalls == old(ghost.edmCalls) + $index + 1 && len(filtered) == ghost.edmTrue - old(ghost.edmTrue)
+//@ loop 0 invariant forall j :: 0 <= j && j < len(filtered) ==> exists i :: 0 <= i && i <= $index && filtered[j] == blocks[i]
+//@ ensures query == nil ==> result == blocks
+//@ ensures query != nil ==> ghost.edmCalls == old(ghost.edmCalls) + len(blocks) && len(result) == ghost.edmTrue - old(ghost.edmTrue)
+//@ ensures query != nil ==> forall j :: 0 <= j && j < len(result) ==> exists i :: 0 <= i && i < len(blocks) && result[j] == blocks[i]
+
+// The file stage of Query (the range-over-func body): a file job is sent only
+// for a file that still has blocks after the prefilter and, when the query has
+// bloom conditions, whose file-level filters evaluated true.
+//@ func (*BloomSearchEngine).Query$closure(sendWithContext[fileFilterJob])
+//@ props C24 C01
+//@ modifies all
+//@ at call sendWithContext[fileFilterJob]#1 assert [C24] len(maybeFile.Metadata.DataBlocks) > 0 && (hasBloomConditions ==> ghost.bloomVerdict)
+
+// evaluateBlockFilters: with no bloom conditions no handle is acquired, nothing
+// is opened and every block goes on; a block is either dispatched or gets one
+// stats entry (never both, never neither) unless the query was canceled; skipped
+// entries report zero rows and bytes; the handle taken for the pass is handed
+// back exactly once; region reads happen while the slot is held.
+//@ func (*BloomSearchEngine).evaluateBlockFilters
+//@ props C24 C23 C21 C22
+//@ requires b != nil && r != nil && slot != nil && handles != nil
+//@ requires slot.ctx == r.ctx
+//@ modifies heaps, ghost.statsRecorded, ghost.statsSkipped, ghost.statsNonZeroSkipped, ghost.errsRecorded, ghost.hAcquired, ghost.hPut, ghost.hDiscarded, ghost.handleCloses, ghost.opens, ghost.bloomVerdict, ghost.bufOwned, ghost.mutexLocks, ghost.mutexUnlocks, ghost.sends, ghost.nilsends, ghost.recvs
+//@ loop 0 invariant -1 <= $index && $index < len(blocks) && len(dst) == old(len(dst)) + $index + 1 && ghost.statsRecorded == old(ghost.statsRecorded) && ghost.hAcquired == old(ghost.hAcquired) && ghost.opens == old(ghost.opens) && ghost.hPut == old(ghost.hPut) && ghost.hDiscarded == old(ghost.hDiscarded) && ghost.statsNonZeroSkipped == old(ghost.statsNonZeroSkipped)
+//@ loop 1 invariant -1 <= $index && $index < len(blocks) && len(dst) == old(len(dst)) + $index + 1 && ghost.statsRecorded == old(ghost.statsRecorded) && ghost.hAcquired == old(ghost.hAcquired) && ghost.opens == old(ghost.opens) && ghost.hPut == old(ghost.hPut) && ghost.hDiscarded == old(ghost.hDiscarded) && ghost.statsNonZeroSkipped == old(ghost.statsNonZeroSkipped) && slot.held
+//@ loop 2 invariant -1 <= $index && $index < len(blocks) && (ghost.statsRecorded - old(ghost.statsRecorded)) + (len(dst) - old(len(dst))) == $index + 1
+//@ loop 2 invariant ghost.hAcquired == old(ghost.hAcquired) + 1 && ghost.hPut == old(ghost.hPut) && ghost.hDiscarded == old(ghost.hDiscarded) && ghost.statsNonZeroSkipped == old(ghost.statsNonZeroSkipped) && slot.held && r != nil && slot != nil && handles != nil
+//@ loop 2 invariant cursorOK(cursor) && len(cursor.blocks) == len(blocks) && handleHealthy
+//@ at call (*fileHandlePool).acquire#1 assert [C24,C22] slot.held && hasSections && pruneBloomQuery != nil && pruneBloomQuery.Expression != nil
+//@ at call (*blockFilterCursor).filtersFor#1 assert [C22] slot.held
+//@ ensures [C24] pruneBloomQuery == nil || pruneBloomQuery.Expression == nil ==> ghost.hAcquired == old(ghost.hAcquired) && ghost.opens == old(ghost.opens) && len(result) == old(len(dst)) + len(blocks) && ghost.statsRecorded == old(ghost.statsRecorded)
+//@ ensures [C23] (ghost.statsRecorded - old(ghost.statsRecorded)) + (len(result) - old(len(dst))) <= len(blocks)
+//@ ensures [C23] slot.held && !ctxDone(r.ctx) ==> (ghost.statsRecorded - old(ghost.statsRecorded)) + (len(result) - old(len(dst))) == len(blocks)
+//@ ensures [C23] ghost.statsNonZeroSkipped == old(ghost.statsNonZeroSkipped)
+//@ ensures [C21] ghost.hAcquired - old(ghost.hAcquired) == (ghost.hPut - old(ghost.hPut)) + (ghost.hDiscarded - old(ghost.hDiscarded)) && ghost.hAcquired <= old(ghost.hAcquired) + 1
 
 // ---------------------------------------------------------------------------
 // merge.go — commit protocol (C13)
